@@ -6,3 +6,6 @@ na("C14", "fragmentation/backpressure independence quantifies over runtime chunk
 na("C15", "resolution of every pending future at every fault point is a liveness property over schedules and fault positions")
 na("C17", "totality of the schema front end over all strings hinges on value ranges of span arithmetic, pest rule/AST agreement at ~100 unreachable!() sites and a third-party markdown parser")
 na("C19", "eventual agreement of client-side discovery/lifetime views with the bus state is a property of event interleavings and re-creation histories")
+check("C09",
+      "Static path rules over the broker's synchronous handlers (rustc MIR, every success and error path enumerated): registry map mutations and their statistics gauges are co-mutated on every path; shutdown_connection covers every collection field of ConnectionState and feeds each to its removal helper; broker-shutdown fan-out, Shutdown-under-flag and run-loop exit guards; every exit of the connection task passes an end-of-life step that informs the broker. Decides these necessary conditions for all histories reaching those paths; does not decide 'no residual state' as a history invariant.",
+      "static analysis: MIR path enumeration with event co-mutation counting, guard dominance, field-coverage matrix", "DESIGN.md §4 C09")
